@@ -70,6 +70,8 @@ def build_text(fd, seed):
             s = f'{rid:5d}{rn:5s}{an:>5s}{at:5d}' + ''.join(f'{x:{w}.{d}f}' for x in p)
             if vel:
                 v = (0.01 * (aid % 90 + 1), -0.02 * (aid % 40 + 1), 0.003 * ((aid + seed) % 7))
+                if aid % 5 == 1:
+                    v = (0.0, 0.0, 0.0)           # an atom at rest: a recorded velocity, not a missing one
                 s += ''.join(f'{x:{w}.{d + 1}f}' for x in v)
             lines.append(s)
             aid += 1
@@ -153,9 +155,29 @@ class Session:
     def key(self):
         try:
             g = self.s._open_fgro
-            return (g._file.tell(), g._current_atom, self.prog[0], self.prog[1])
+            return (g._file.tell(), g._current_atom, self.prog[0], self.prog[1], self._hidden(self.s), self._hidden(g))
         except Exception:
             return None
+
+    @staticmethod
+    def _hidden(obj):
+        """Fingerprint of everything else the object remembers (its instance attributes): two histories are only
+        merged when this agrees too, so state introduced by a change to the library (a remembered generator, a
+        memo table, a cached index) splits the states instead of being silently identified."""
+        out = []
+        for k, v in sorted(vars(obj).items()):
+            if isinstance(v, (int, float, str, bool, type(None))):
+                out.append((k, v))
+            elif hasattr(v, 'gi_frame'):                       # a suspended generator: where it stands
+                fr = v.gi_frame
+                out.append((k, 'gen', None if fr is None else (fr.f_lasti, repr(sorted(
+                    (a, b) for a, b in fr.f_locals.items() if isinstance(b, (int, str, bool, type(None))))))))
+            elif isinstance(v, (list, tuple, dict, set)):
+                r = repr(v)
+                out.append((k, type(v).__name__, len(v), r if len(r) < 400 else hash(r)))
+            else:
+                out.append((k, type(v).__name__))
+        return tuple(out)
 
     def free_slot(self):
         for j in (0, 1):
@@ -260,7 +282,7 @@ class C12(Check):
     rule = ('case = (file, access history); files = every residue-kind sequence up to the length bound x numbering '
             'class x velocities, plus three 400-residue files; histories = BFS over the event alphabet to the depth '
             'bound (a state is its history, expansion de-duplicated by (file offset, _current_atom, iterator '
-            'progress)) plus one de Bruijn order-2 history per file; every transition is executed on a fresh '
+            'progress, fingerprint of all other instance attributes of the view and its file object)) plus one de Bruijn order-2 history per file; every transition is executed on a fresh '
             'SystemGro and compared with the reference residue; distinct by (file, history); non-trivial = the '
             'history has at least two events that move the shared cursor')
     technique = ('explicit-state breadth-first search over access histories of the real SystemGro (history replay on '
